@@ -35,25 +35,41 @@ tvars == <<regs, iter, l, hashOf, nbad>>
 (***************************************************************************)
 Complain(cond, what) == IF cond THEN <<>> ELSE <<what>>
 
+\* Derived probes: the harness grew a clone of every vector the call produced with zeros,
+\* serialised it and asked is_zero.  p.w names the probed vector: the returned vector(s)
+\* ("ob", "oq") or the subject afterwards ("pb").  Storage dirt beyond len shows up here.
+ProbeTarget(e, w) == CASE w = "ob" -> e.o.b [] w = "oq" -> e.o.q [] w = "pb" -> e.pb
+ProbeOk(p, res) ==
+  /\ p.ok = 1
+  /\ Len(p.g) >= Len(res)
+  /\ p.g = res \o Zeros(Len(p.g) - Len(res))
+  /\ p.by = ToBytesLE(res)
+  /\ p.z = (IF IsZero(res) THEN 1 ELSE 0)
+ConfProbes(ev, e) ==
+  IF "pr" \notin DOMAIN ev THEN <<>>
+  ELSE Complain(\A i \in 1..Len(ev.pr) : ProbeOk(ev.pr[i], ProbeTarget(e, ev.pr[i].w)),
+                "later-observation-of-result")
+
 \* function contract: post-state and result are exactly what Api allows
 ConfFun(ev) ==
   LET e == Api(ev) IN
   Complain(ev.py = ev.y.b, "operand-modified") \o
   ( IF e.o.t = "panic"
     THEN Complain(ev.o.t = "panic", "expected-panic") \o
-         Complain(IsFixed(ev.x) => Len(ev.px.b) <= ev.x.c, "len>cap-after-panic")
+         Complain(IsFixed(ev.x) => ev.px.n <= ev.x.c, "len>cap-after-panic")
     ELSE IF e.o = OErrIo
     THEN Complain(ev.o.t = "err", "expected-io-error") \o Complain(ev.px.b = e.pb, "post-bits")
     ELSE IF ev.op = "sign_extend" /\ Len(ev.x.b) = 0      \* no "previous top bit": either fill is allowed
     THEN Complain(ev.px.b \in {Zeros(Len(e.pb)), Ones(Len(e.pb))}, "post-bits") \o Complain(ev.o = e.o, "result")
-    ELSE Complain(ev.o = e.o, "result") \o Complain(ev.px.b = e.pb, "post-bits") )
+    ELSE Complain(ev.o = e.o, "result") \o Complain(ev.px.b = e.pb, "post-bits") \o ConfProbes(ev, e) )
 
 \* C03: the history-made subject and a fresh twin built from its observed bits
 \* answer the same call identically
 ConfTwin(ev) ==
   Complain(ev.tw.o.t = ev.o.t, "twin-result-kind") \o
   ( IF ev.o.t = "panic" THEN <<>>
-    ELSE Complain(ev.tw.o = ev.o, "twin-result") \o Complain(ev.tw.pb = ev.px.b, "twin-post-bits") )
+    ELSE Complain(ev.tw.o = ev.o, "twin-result") \o Complain(ev.tw.pb = ev.px.b, "twin-post-bits") \o
+         Complain(ev.tw.pr = ev.pr, "twin-later-observation") )
 
 \* C20: all forms of one operator agree; borrowed operands and pre-clones unchanged
 ConfForms(ev) ==
@@ -71,7 +87,7 @@ ConfHash(ev) ==
 \* C18: capacity inequalities, bits as specified, dynamic/auto never fail
 ConfCap(ev) ==
   LET e == Api(ev) IN
-  Complain(CapOk(ev, ev.px.b, ev.px.c), "capacity-rule") \o
+  Complain(ev.px.n <= ev.px.c /\ CapOk(ev, ev.px.b, ev.px.c), "capacity-rule") \o
   ( IF IsFixed(ev.x) THEN <<>>
     ELSE Complain(ev.o.t \notin {"panic", "err"}, "dynamic/auto-failed") \o
          Complain(ev.px.b = e.pb, "post-bits") \o Complain(ev.o = e.o, "result") )
@@ -79,7 +95,7 @@ ConfCap(ev) ==
 \* C19: outcome class and len <= capacity, whatever the bits
 ConfSig(ev) ==
   LET e == Api(ev) IN
-  Complain(Len(ev.px.b) <= ev.px.c, "len>cap") \o
+  Complain(ev.px.n <= ev.px.c, "len>cap") \o
   ( IF e.o.t \in {"panic", "err"} THEN Complain(ev.o.t = e.o.t, "overflow-not-signalled")
     ELSE Complain(ev.o.t \notin {"panic", "err"}, "spurious-failure") ) \o
   ( IF ev.o.t = "vec" THEN Complain(~IsFixed(ev.x) \/ Len(ev.o.b) <= ev.x.c, "result-len>cap") ELSE <<>> )
@@ -120,7 +136,7 @@ Step(ev) ==
       ok == complaints = <<>>
   IN
   /\ IF ok THEN TRUE
-     ELSE /\ PrintT(<<"MISMATCH", l, ToJson(complaints), ToJson(Expected(ev))>>)
+     ELSE /\ PrintT(ToJson([k |-> "MISMATCH", l |-> l, c |-> complaints, e |-> Expected(ev)]))
           /\ TLCSet(17, nbad + 1)
   /\ nbad' = IF ok THEN nbad ELSE nbad + 1
   /\ IF ev.op \in ItOps
@@ -142,7 +158,7 @@ TraceSpec == TraceInit /\ [][TraceNext]_tvars
 \* every line consumed, none reported
 TraceAccepted ==
   LET consumed == TLCGet("stats").diameter - 1 IN
-  /\ PrintT(<<"TRACE-SUMMARY", consumed, Len(Rec), TLCGet(17)>>)
+  /\ PrintT(ToJson([k |-> "SUMMARY", consumed |-> consumed, lines |-> Len(Rec), bad |-> TLCGet(17)]))
   /\ consumed = Len(Rec)
   /\ TLCGet(17) = 0
 
